@@ -343,6 +343,11 @@ int secp256k1_ecdsa_adaptor_recover(const secp256k1_context* ctx, unsigned char 
     ret &= !secp256k1_scalar_is_zero(&s);
     secp256k1_scalar_inverse(&deckey, &s);
     secp256k1_scalar_mul(&deckey, &deckey, &sp);
+    /* A signature object with s = 0 (obtainable from the parsers) is invalid and
+     * gives deckey = 0, which would make enckey_expected_ge the point at infinity
+     * below. ret is already 0 in that case; continue with a dummy deckey instead
+     * of branching on s, which can be derived from the secret decryption key. */
+    secp256k1_scalar_cmov(&deckey, &secp256k1_scalar_one, secp256k1_scalar_is_zero(&deckey));
 
     /* Deal with ECDSA malleability */
     secp256k1_ecmult_gen(&ctx->ecmult_gen_ctx, &enckey_expected_gej, &deckey);
